@@ -18,7 +18,7 @@ from ..cfg import CFG
 from ..minieval import Evaluator, Record, Unsupported
 from ..model import ClassInfo, FuncInfo, Repo, dotted, load_repo
 from ..report import AnalysisError, Report
-from ..util import body_walk, cmp_normal, cmp_oriented, kwarg, norm, src, walk_no_nested
+from ..util import cli_args_name, body_walk, cmp_normal, cmp_oriented, kwarg, norm, src, walk_no_nested
 
 DOCUMENTED_ORDER = [
     "LIKELY_SAFE",
@@ -382,15 +382,17 @@ def _check_safety_call(e: ast.AST) -> bool:
 
 def cli_arms(main: FuncInfo) -> Dict[str, ast.If]:
     """Locate the `if args.inject ... elif args.check_safety ... else` chain of cli.main."""
+    an = cli_args_name(main.node)
     for n in body_walk(main.node):
         if isinstance(n, ast.If):
             c = cmp_normal(n.test)
-            if c and dotted(c[0]) == "args.inject" and c[1] in ("is not", "!="):
+            if c and dotted(c[0]) == f"{an}.inject" and c[1] in ("is not", "!="):
                 chain = {"inject": n}
                 nxt = n.orelse
-                if len(nxt) == 1 and isinstance(nxt[0], ast.If) and dotted(nxt[0].test) == "args.check_safety":
+                if nxt and isinstance(nxt[0], ast.If) and dotted(nxt[0].test) == f"{an}.check_safety" and (len(nxt) == 1 or not nxt[0].orelse):
                     chain["check_safety"] = nxt[0]
-                    chain["decompile_body"] = nxt[0].orelse
+                    # `elif check_safety: ...; return` + else  ==  the same arm followed by the else statements
+                    chain["decompile_body"] = nxt[0].orelse or nxt[1:]
                     return chain
     raise AnalysisError("cli.main: `if args.inject is not None ... elif args.check_safety ... else` chain not recognised")
 
@@ -558,7 +560,7 @@ def check_faces(repo: Repo, rep: Report, dom: "SevDomain", tier: str = "quick"):
 
                 env = {
                     stacked: pickles,
-                    "args": Record("args", {"print_results": print_results, "json_output": json_output, "check_safety": True, "inject": None, "trace": False, "PICKLE_FILE": "-"}),
+                    cli_args_name(main.node): Record("args", {"print_results": print_results, "json_output": json_output, "check_safety": True, "inject": None, "trace": False, "PICKLE_FILE": "-"}),
                     "sys": Record("sys", {"stderr": Record("file", {}), "stdout": Record("file", {})}),
                     **module_consts,
                 }
